@@ -96,6 +96,59 @@ def impl_run(case):
     return one, inc, typ, trace
 
 
+class _Rec(object):
+    def __init__(self):
+        self.w = []
+
+    def write(self, d):
+        self.w.append(d)
+
+
+def impl_sw(case):
+    """codecs.getwriter('css') fed the chunks: (trace of what every write() put on the stream, str-typed write?, one-shot)"""
+    import css_parser.codec  # noqa: F401
+    kw = kw_of(case)
+    chunks = chunks_of(case)
+    rec = _Rec()
+    trace, strtyped = [], None
+    try:
+        w = codecs.getwriter("css")(rec, **kw)
+        for i, c in enumerate(chunks):
+            n = len(rec.w)
+            w.write(c)
+            data = rec.w[n:]
+            if any(isinstance(x, str) for x in data) and strtyped is None:
+                strtyped = "write %d put %r (str) on the byte stream" % (i, [x for x in data if isinstance(x, str)][0])
+            trace.append(["OK", cps(b"".join(x.encode("latin-1") if isinstance(x, str) else x for x in data))])
+    except Exception as e:  # noqa
+        trace.append(["ERR", exc_enum(e)])
+    try:
+        one = ["OK", cps(codecs.getencoder("css")("".join(chunks), **kw)[0])]
+    except Exception as e:  # noqa
+        one = ["ERR", exc_enum(e)]
+    return trace, strtyped, one
+
+
+def undecided_text(text):
+    """the @charset header of `text` cannot be decided without knowing that the text ends here"""
+    return '@charset "'.startswith(text) or (text.startswith('@charset "') and '"' not in text[10:])
+
+
+def sw_oracle(case, trace, strtyped, one):
+    out = []
+    whole = "".join(case["chunks"])
+    if strtyped:
+        out.append(("StreamWriter puts str on the byte stream: " + strtyped, "sw-str"))
+    got = collapse(trace)
+    if undecided_text(whole):
+        if got != norm_res(one):
+            out.append(("StreamWriter loses a text whose @charset header is still undecided when writing stops",
+                        "sw-undecided-eof"))
+    elif got != norm_res(one):
+        out.append(("StreamWriter content differs from one-shot encode", "css"))
+    return out
+
+
 def impl_fn(case):
     from css_parser import _codec3 as C
     k, final = case[0], bool(case[1])
@@ -591,6 +644,38 @@ def run(ctx):
         if d:
             ctx.violation(d, {"k": "I", "text": t, "enc": e}, sig_text="inverse " + json.dumps(e))
 
+    # --- StreamWriter: model (enc_step with final=False, theorems streamwriter_*) and oracle (content == one-shot encode)
+    wcases = []
+    for tx in enc_inputs():
+        if len(tx) > 34:
+            continue
+        for enc in (None, "utf-8", "utf-8-sig", "utf-16", "latin-1", "x"):
+            if enc is not None and ctx.rng.random() < 0.5:
+                continue
+            n = len(tx)
+            plist = [()] + [(i,) for i in range(n + 1)] + [tuple(range(1, n))] + \
+                [tuple(sorted(ctx.rng.randint(0, n) for _ in range(2))) for _ in range(4)]
+            for pt in plist:
+                wcases.append({"k": "W", "enc": enc, "chunks": split(tx, pt)})
+    wimpl = ctx.pool_map(impl_sw, wcases, procs=6, chunksize=512)
+    w_compared = 0
+    if binary:
+        widx = [i for i, c in enumerate(wcases) if model_scope(c)]
+        wout = ctx.run_binary(binary, ["W|%s|%s" % ("-" if wcases[i]["enc"] is None else cps(wcases[i]["enc"]),
+                                                    ";".join(cps(x) for x in wcases[i]["chunks"])) for i in widx], shards=6)
+        wm = []
+        for i, o in zip(widx, wout):
+            mt = [norm_res(x) for x in model_trace(o)] if o.strip() else []
+            if mt != [norm_res(x) for x in wimpl[i][0]]:
+                wm.append((wcases[i], {"impl": wimpl[i][0], "model": o}))
+        w_compared = len(widx)
+        if wm:
+            ctx.broken("correspondence", "StreamWriter.encode vs CssV.Codec.enc_trace_nf",
+                       "%d of %d cases differ; first: %s" % (len(wm), len(widx), json.dumps(wm[:2])[:1500]))
+    for c, (tr, st, one) in zip(wcases, wimpl):
+        for d, tag in sw_oracle(c, tr, st, one):
+            ctx.violation(d, c, sig_text=tag + " " + json.dumps({"enc": c.get("enc")}))
+
     # --- Section hypotheses about the underlying codecs, validated per CPython codec
     hyp_cases = []
     for name in REAL:
@@ -616,6 +701,10 @@ def run(ctx):
     for f in ctx.findings:
         if f.get("status") == "open":
             w = f["witness"]
+            if w.get("k") == "W":
+                for d, tag in sw_oracle(w, *impl_sw(w)):
+                    ctx.violation(d, w, sig_text=tag + " " + json.dumps({"enc": w.get("enc")}))
+                continue
             one, inc, typ, _tr = impl_run(w)
             for d, tag in oracle(w, one, inc, typ):
                 ctx.violation(d, w, sig_text=tag + " " + json.dumps({"enc": w.get("enc"), "force": w.get("force", True)}))
@@ -624,11 +713,11 @@ def run(ctx):
         return hunt(ctx, 300 if thorough else 60)
 
     ctx.finish({
-        "evaluations": len(cases) + len(fcases) + len(inv_cases) + len(hyp_cases),
+        "evaluations": len(cases) + len(fcases) + len(inv_cases) + len(hyp_cases) + len(wcases),
         "class_cases": len(cases), "function_cases": len(fcases), "inverse_cases": len(inv_cases),
         "codec_hypothesis_cases": len(hyp_cases),
         "model_compared": compared, "outside_model_codec_table": skipped_names,
-        "closed_instance_compared": r_compared,
+        "closed_instance_compared": r_compared, "streamwriter_cases": len(wcases), "streamwriter_model_compared": w_compared,
         "distinct_nontrivial": len(nontrivial),
         "rule": "structured part (%d cases): byte strings / texts with complete, truncated, mis-named @charset rules x 10 "
                 "encodings x BOMs x raw BOM/charset prefixes and malformed sequences x encoding/force arguments x ALL cut points "
@@ -770,6 +859,12 @@ def replay(ctx, path):
     bad = 0
     for v in rep.get("violations", []):
         w = v["witness"]
+        if w.get("k") == "W":
+            ds = [d for d, tag in sw_oracle(w, *impl_sw(w))
+                  if not ctx.match_known(d + " :: " + tag + " " + json.dumps({"enc": w.get("enc")}))]
+            print("replay StreamWriter enc=%r chunks=%r -> %s" % (w.get("enc"), w["chunks"], "; ".join(ds) or "holds"))
+            bad += bool(ds)
+            continue
         if w.get("k") == "I":
             d = inverse_oracle(w["text"], w.get("enc"))
             print("replay inverse %r enc=%r -> %s" % (w["text"], w.get("enc"), d or "holds"))
@@ -795,14 +890,16 @@ TRUSTED = [
     "extraction (ExtrOcamlBasic only) + ocamlfind ocamlopt, ocaml/codec_driver.ml",
     "coq/theories/CodecConcrete.v: Gallina utf-8/-sig, utf-16*, utf-32*, latin-1, ascii codecs (strict) used only to RUN the "
     "model against the implementation; not part of any theorem except the non-vacuity examples",
-    "correspondence harness harness/props/c14.py (generators, canonicalisation: exception class -> enum, error timing inside "
-    "a run not compared); CodecPyLib.lower (per-character str.lower table generated from the interpreter, Gen/PyTables.v) for encoding.lower()",
+    "correspondence harness harness/props/c14.py (generators, canonicalisation: exception class -> enum; the result of every "
+    "call up to and including the raising one is compared); CodecPyLib.lower (per-character str.lower table generated from the interpreter, Gen/PyTables.v) for encoding.lower()",
     "modelled by hand, not verified: decode, encode, IncrementalDecoder.decode, IncrementalEncoder.encode (Codec.v)",
 ]
 ASSUME = [
     "Print Assumptions for every theorem of props/C14.v: see coverage.print_assumptions",
     "errors argument fixed per run of the underlying codec (the theorems quantify over any codec satisfying the hypotheses); "
     "the model correspondence uses errors='strict'",
-    "getstate/setstate/reset, StreamReader/StreamWriter are outside the property's observation points",
+    "getstate/setstate/reset are outside the property's observation points; StreamWriter.encode is modelled (enc_step with "
+    "final=False) and compared per write; StreamReader is not (stateless-retry API without end-of-stream notification, see "
+    "design_notes/C14.md)",
     "inverse oracle: texts starting with U+FEFF or U+0000 excluded (a leading U+FEFF is the byte-order mark)",
 ]
